@@ -75,7 +75,12 @@ def exec_for(I, node, env):
     spec = None
     if fn is not None:
         header = f'for {ast.unparse(node.target)} in {ast.unparse(node.iter)}'
-        spec = I.loop_specs.get((env.qual, header)) or I.loop_specs.get((env.qual, loop_ordinal(fn, node)))
+        same = [n for n in ast.walk(fn) if isinstance(n, ast.For) and
+                f'for {ast.unparse(n.target)} in {ast.unparse(n.iter)}' == header]
+        same.sort(key=lambda n: (n.lineno, n.col_offset))
+        occ = same.index(node) + 1          # 'header#2': the second loop with this header text
+        spec = I.loop_specs.get((env.qual, f'{header}#{occ}')) or I.loop_specs.get((env.qual, header)) or \
+            I.loop_specs.get((env.qual, loop_ordinal(fn, node)))
     if spec is not None:
         return invariant_loop(I, node, env, src, spec)
     return map_loop(I, node, env, src)
